@@ -71,6 +71,49 @@ Fixpoint lazy_par_from (asg : lassignment) (pos : nat) (stages : list lstage) (i
   end.
 Definition lazy_par (asg : lassignment) := lazy_par_from asg 0.
 
+(* ---- the same, run to completion and with the stop moments COUPLED as in the library ---------------------------------
+   ma_final: the given schedule, then the canonical completion (ParMap.drive).  A stage's consumer stops (its yield
+   answers false) when the next stage has closed its `done` channel - because ITS consumer stopped or because an error
+   reached its collector - or, for a stage on the calling goroutine, when its consumer has stopped. *)
+Definition ma_final {A B C : Type} (f : nat -> A -> res B) (yield : C -> res B -> C * bool) (k : nat) (decide : bool)
+           (nw : nat) (sched : list choice) (items : list (res A)) (c : C) :=
+  match map_auto_run f yield k decide nw sched items c with
+  | MASeq c' go => MASeq c' go
+  | MAPar s => MAPar (drive f yield (measure s) s)
+  end.
+
+Definition ma_closed {A B C : Type} (m : @ma_state A B C) : bool :=
+  match m with MASeq _ go => negb go | MAPar s => negb (doneOpen (col s)) end.
+
+(* what the stage has delivered at the end, and whether it answers false to its upstream *)
+Definition lstage_fin (lp : lparams) (s : lstage) (items : list (res Z)) : list (res Z) * bool :=
+  let pp := lp_pp lp in
+  match s with
+  | LMap p => let m := ma_final (lmap_fn p) (stop_yield (lp_stop lp))
+                                (pp_k pp) (pp_decide pp) (pp_nw pp) (pp_sched pp) items [] in (ma_cst m, ma_closed m)
+  | LAccept p => let m := ma_final (filter_mapper (laccept_fn p)) (filter_stop_yield (lp_stop lp))
+                                   (pp_k pp) (pp_decide pp) (pp_nw pp) (pp_sched pp) items [] in (ma_cst m, ma_closed m)
+  | LNumber p => let r := seq_map (lnum_fn p) (stop_yield (lp_stop lp)) 0 items [] in (fst r, negb (snd r))
+  end.
+
+(* schedule inputs per stage position and traversal *)
+Definition passignment := nat -> list (res Z) -> par_params.
+
+Fixpoint lazy_stops (pps : passignment) (cstop : list (res Z) -> bool) (pos : nat) (stages : list lstage) : list (res Z) -> bool :=
+  match stages with
+  | [] => cstop
+  | s :: r => fun L => snd (lstage_fin (mkLP (pps pos L) (lazy_stops pps cstop (S pos) r)) s L)
+  end.
+
+Fixpoint lazy_run_from (pps : passignment) (cstop : list (res Z) -> bool) (pos : nat) (stages : list lstage) (items : list (res Z)) : list (res Z) :=
+  match stages with
+  | [] => items
+  | s :: r => lazy_run_from pps cstop (S pos) r (fst (lstage_fin (mkLP (pps pos items) (lazy_stops pps cstop (S pos) r)) s items))
+  end.
+Definition lazy_run (pps : passignment) (cstop : list (res Z) -> bool) := lazy_run_from pps cstop 0.
+
+Definition passignment_ok (pps : passignment) : Prop := forall pos l, (1 <= pp_nw (pps pos l))%nat.
+
 (* ---- the short-circuit consumer ------------------------------------------------------------------------ *)
 Inductive verdict (R : Type) : Type :=
 | VResult (r : R)     (* the consumer has seen enough: it stops with r *)
